@@ -20,12 +20,17 @@ type rsParams struct {
 	kind     string
 	initUp   bool
 	fire     bool // fire armed timers to the horizon after every stop/start event
+	choose   bool // after every event the explorer chooses: fire nothing, only the shortest armed timer, or all to the horizon
 	blocking bool // blocking dial
 	n        int
 }
 
 func (p rsParams) name() string {
-	return fmt.Sprintf("restart/%s/%s/init-up=%v/fire-timers=%v/blocking-dial=%v/n=%d", p.script, p.kind, p.initUp, p.fire, p.blocking, p.n)
+	f := fmt.Sprint(p.fire)
+	if p.choose {
+		f = "any-subset"
+	}
+	return fmt.Sprintf("restart/%s/%s/init-up=%v/fire-timers=%s/blocking-dial=%v/n=%d", p.script, p.kind, p.initUp, f, p.blocking, p.n)
 }
 
 func rsScenario(p rsParams) func() {
@@ -48,6 +53,35 @@ func rsScenario(p rsParams) func() {
 				mc.Quiesce()
 			}
 		}
+		// time advances only as far as the explorer decides: nothing, the shortest armed timer, or everything
+		hist := ""
+		advance := func() {
+			if !p.choose {
+				if p.fire {
+					fireAll()
+				}
+				return
+			}
+			switch mc.Choose(3) {
+			case 1:
+				var min *mc.Timer
+				for _, t := range mc.ArmedTimers() {
+					if min == nil || t.Dur < min.Dur {
+						min = t
+					}
+				}
+				if min != nil {
+					mc.FireTimers(func(t *mc.Timer) bool { return t == min })
+					mc.Quiesce()
+				}
+				hist += "1"
+			case 2:
+				fireAll()
+				hist += "*"
+			default:
+				hist += "0"
+			}
+		}
 		var pending []*world.Call // calls that had not returned when the script moved on
 		for pos, ev := range p.script {
 			switch ev {
@@ -58,9 +92,7 @@ func rsScenario(p rsParams) func() {
 				w.FW.Crash(world.Addr(1))
 				up = false
 				mc.Quiesce()
-				if p.fire {
-					fireAll()
-				}
+				advance()
 			case 'u':
 				if up {
 					continue
@@ -69,9 +101,7 @@ func rsScenario(p rsParams) func() {
 				up = true
 				inc++
 				mc.Quiesce()
-				if p.fire {
-					fireAll()
-				}
+				advance()
 			case 'c':
 				c := w.NewCall(p.kind)
 				if p.kind == "GRPCCall" || p.kind == "Unicast" {
@@ -119,6 +149,9 @@ func rsScenario(p rsParams) func() {
 				if !c.Returned {
 					pending = append(pending, c)
 				}
+				if p.choose && pos < len(p.script)-1 {
+					advance()
+				}
 			}
 		}
 		// eventual part: with all timers fired every call has returned
@@ -159,7 +192,7 @@ func rsScenario(p rsParams) func() {
 				fail("C10/connect-callback", "per-connection", "%s: connect callback ran %d times for connection %d", name, k, conn)
 			}
 		}
-		mc.Outcome("accepts=%d inc=%d", accepts, inc)
+		mc.Outcome("accepts=%d inc=%d timers=%s", accepts, inc, hist)
 	}
 }
 
@@ -191,6 +224,23 @@ func rsInstances(tier string) []Instance {
 			continue
 		}
 		keep = append(keep, s)
+	}
+	// time advanced by the explorer's choice after every event (free choices, deviation bound 0)
+	for _, s := range keep {
+		if len(s) > 4 || !strings.Contains(s, "s") {
+			continue
+		}
+		for _, kind := range []string{"GRPCCall", "QuorumCall"} {
+			if kind == "QuorumCall" && !thorough(tier) && len(s) > 3 {
+				continue
+			}
+			b := 0
+			if thorough(tier) && len(s) <= 3 {
+				b = 1
+			}
+			p := rsParams{script: s, kind: kind, initUp: true, choose: true, n: 1}
+			out = append(out, Instance{Name: p.name(), Bound: b, Root: rsScenario(p)})
+		}
 	}
 	for _, s := range keep {
 		for _, kind := range []string{"GRPCCall", "QuorumCall", "Unicast"} {
@@ -228,7 +278,7 @@ func rsInstances(tier string) []Instance {
 
 func init() {
 	register(&Check{ID: "C10",
-		Rule: "fault-sequence enumeration: every script of length <= 4 (5 thorough) over {stop, start, call} that ends with a call, for node 1 initially up or down (down at manager creation included), x call kind {RPC, quorum call on 1 or 2 nodes, unicast} x back-off timers fired to the horizon after every stop/start or never x dial mode {non-blocking, blocking}; manager with general and per-node metadata, servers with a connect callback; after each call the script observes at quiescence WITHOUT firing a timer; oracle: (a) a call issued while the node listens is delivered to its current incarnation, (b) once that incarnation's handler has returned the call has its reply with no back-off timer fired, (c) every accepted stream carries both metadata entries and triggers the connect callback exactly once; all schedules within the deviation bound inside each event; an outcome is (instance, accepted streams, incarnations)",
+		Rule: "fault-sequence enumeration: every script of length <= 4 (5 thorough) over {stop, start, call} that ends with a call, for node 1 initially up or down (down at manager creation included), x call kind {RPC, quorum call on 1 or 2 nodes, unicast} x back-off timers {fired to the horizon after every stop/start, never, or - as a free choice after every event - nothing / only the shortest armed timer / all} x dial mode {non-blocking, blocking}; manager with general and per-node metadata, servers with a connect callback; after each call the script observes at quiescence WITHOUT firing a timer; oracle: (a) a call issued while the node listens is delivered to its current incarnation, (b) once that incarnation's handler has returned the call has its reply with no back-off timer fired, (c) every accepted stream carries both metadata entries and triggers the connect callback exactly once; all schedules within the deviation bound inside each event; an outcome is (instance, accepted streams, incarnations)",
 		Gen:  rsInstances,
 		Assumptions: []string{"a crash breaks the node's streams immediately (fakegrpc), so the client has noticed the outage at the next quiescent point", "'promptly / never waits out a back-off timer' is decided untimed: no virtual timer is fired between the call and the observation"},
 	})
